@@ -257,6 +257,11 @@ def run_graders(ctx):
             if plain:
                 cfg['sample_from']['a_{0}'] = [41, 42]
                 idxs = [0] + idxs[:2]
+            inst_const = (not plain) and rng.random() < 0.3
+            if inst_const:
+                # an author constant carrying the very name of a numbered instance in use: the instance is a variable and shadows it
+                cfg.setdefault('user_constants', {})['a_{%d}' % idxs[-1]] = 77.5
+                ctx.count('numbered_instance_named_like_a_constant')
             terms = ['rec(a_{%d})' % k for k in idxs]
             ans = '+'.join(terms) + '+x'
             sub = 'x+' + '+'.join(reversed(terms))
@@ -265,7 +270,7 @@ def run_graders(ctx):
             g = FormulaGrader(answers=ans, **cfg)
             out = lib.call(ctx, g, None, sub)
             ctx.ev()
-            wit = {'answers': ans, 'submission': sub, 'plain_a_{0}': plain, 'constant_named_like_the_numbered_variable': const_same_name,
+            wit = {'answers': ans, 'submission': sub, 'plain_a_{0}': plain, 'constant_named_like_the_numbered_variable': const_same_name, 'constant_named_like_an_instance': inst_const,
                    'outcome': out.brief()}
             if not out.returned or out.value['ok'] is not True:
                 ctx.violation('C13:grader:numbered:verdict', 'identical formula not graded correct: %r' % (out.brief(),), wit)
